@@ -44,6 +44,11 @@ pub trait XmlSource<'r, B> {
     spec fn faults(&self) -> nat;
     /// number of bytes of `remaining` that are available without another refill
     spec fn buffered(&self) -> nat;
+    /// what `remaining` will be once the byte-order-mark sniff has run: the sniff sees the first piece of
+    /// the input only (C02), so this depends on the source -- but it is a function of the source state
+    spec fn after_bom(&self) -> Seq<u8>;
+    proof fn law_after_bom(&self)
+        ensures self.after_bom() == self.remaining() || self.after_bom() == strip_bom(self.remaining());
 
     /// Removes UTF-8 BOM if it is present
     fn remove_utf8_bom(&mut self) -> (r: io::Result<()>)
@@ -51,7 +56,7 @@ pub trait XmlSource<'r, B> {
             (r is Err) == (final(self).faults() > old(self).faults()), final(self).faults() >= old(self).faults(), final(self).remaining().len() <= old(self).remaining().len(),
             match r {
                 // the sniff may see only the first piece of the input: a BOM is either removed or left in place
-                Ok(()) => final(self).remaining() == old(self).remaining() || final(self).remaining() == strip_bom(old(self).remaining()),
+                Ok(()) => final(self).remaining() == old(self).after_bom(),
                 Err(_) => final(self).remaining() == old(self).remaining(),
             };
 
@@ -242,9 +247,12 @@ impl<'a> XmlSource<'a, ()> for &'a [u8] {
     open spec fn remaining(&self) -> Seq<u8> { (*self)@ }
     open spec fn faults(&self) -> nat { 0 }
     open spec fn buffered(&self) -> nat { (*self)@.len() }
+    /// a slice is one piece: a UTF-8 BOM is always removed (C17) and never appears in an event
+    open spec fn after_bom(&self) -> Seq<u8> { strip_bom((*self)@) }
+    proof fn law_after_bom(&self) {}
 
     fn remove_utf8_bom(&mut self) -> (r: io::Result<()>)
-        ensures r is Ok, final(self).remaining() == strip_bom(old(self).remaining()),
+        ensures r is Ok,
     {
         if self.starts_with(crate::encoding::UTF8_BOM) {
             *self = &self[crate::encoding::UTF8_BOM.len()..];
